@@ -13,6 +13,8 @@ import asyncio
 from graphql import (
     execute,
     execute_sync,
+    extend_schema,
+    lexicographic_sort_schema,
     get_introspection_query,
     graphql_sync,
     parse,
@@ -47,7 +49,8 @@ class Doc:
 class Req:
     """A request = (document, operation, variables, plan); re-executable."""
 
-    def __init__(self, doc, opname, variables, planner, model, result, root):
+    def __init__(self, doc, opname, variables, planner, model, result, root, schema=None):
+        self.schema = schema
         self.doc = doc
         self.opname = opname
         self.variables = variables
@@ -103,6 +106,11 @@ def _run_unit(seed=None, unit=None, tier="quick", stats=None):
         info["digest"] = "rejected"
         return [], info
     sdl_before = print_schema(schema)
+    # schemas derived from the first one during the history (extend_schema,
+    # lexicographic_sort_schema): new objects that share argument / input-field default objects
+    # with their origin, so requests on one are history for the other
+    schemas = [schema]
+    sdls = [sdl_before]
     docs_before = [print_ast(d.ast) for d in docs]
     requests = []
     nops = 4 + tape.draw(9 if not big else 27, "nops")
@@ -112,11 +120,36 @@ def _run_unit(seed=None, unit=None, tier="quick", stats=None):
     alloc.activate(al)
     try:
         for step in range(nops):
-            kind = tape.weighted((6, 3, 3, 1, 1, 1, 1), "opkind")
+            kind = tape.weighted((6, 3, 3, 1, 1, 1, 1, 2), "opkind")
             # 0 new request, 1 repeat earlier, 2 earlier doc/op with other variables,
-            # 3 validate, 4 introspection, 5 print_schema, 6 allocator churn
+            # 3 validate, 4 introspection, 5 print_schema, 6 allocator churn, 7 derive a schema
             if kind in (1, 2) and not requests:
                 kind = 0
+            if kind == 7 and len(schemas) >= 3:
+                kind = 0
+            if kind == 7:
+                origin = schemas[tape.draw(len(schemas), "derive_from")]
+                how = tape.draw(3, "derive_how")
+                try:
+                    if how == 2:
+                        derived = lexicographic_sort_schema(origin)
+                    else:
+                        n = len(schemas)
+                        derived = extend_schema(origin, parse(
+                            f"extend input Filter {{ x{n}: Int = {40 + n}, y{n}: [Int!] = 7 }} "
+                            f"extend type Query {{ q{n}: Int }}" if how == 0 else
+                            f"extend input Filter {{ x{n}: Int = {40 + n} }}"))
+                    attach(derived, type_mode, reset_shared=False)
+                except Exception as e:  # noqa: BLE001
+                    violations.append(Violation(PROP, "escaped_exception",
+                                                {"type": type(e).__name__, "entry": "derive"},
+                                                {"step": step, "error": repr(e)}))
+                    continue
+                schemas.append(derived)
+                sdls.append(print_schema(derived))
+                trace.append(["derive", ("extend2", "extend1", "sort")[how]])
+                bump(stats, "probes", "op_derive_schema_" + ("extend", "extend", "sort")[how])
+                continue
             if kind == 3:
                 d = docs[tape.draw(len(docs), "vdoc")]
                 errs = validate(schema, d.ast)
@@ -165,29 +198,33 @@ def _run_unit(seed=None, unit=None, tier="quick", stats=None):
                     variables = d.gen.variables_for(opname)
                 cfg = PlanConfig(tape, allow_async=False)
                 planner = Planner(tape, cfg)
-                model = Model(schema, d.ast, data, planner, type_mode)
+                on = schemas[tape.draw(len(schemas), "on_schema")] if len(schemas) > 1 else schema
+                if on is not schema:
+                    bump(stats, "probes", "request_on_derived_schema")
+                model = Model(on, d.ast, data, planner, type_mode)
                 root = {"__oid": (len(requests) + 1) * 7919, "__t": "Root", "__path": ()}
                 result = model.execute(opname, variables, root)
-                rq = Req(d, opname, variables, planner, model, result, root)
+                rq = Req(d, opname, variables, planner, model, result, root, schema=on)
                 requests.append(rq)
                 for k, n in planner.fault_kinds.items():
                     bump(stats, "faults", k, n)
             entry = ENTRIES[tape.draw(len(ENTRIES), "entry")]
             req = Request(None, requests.index(rq), world, rq.planner, force_sync=True, root=rq.root)
             opn = rq.opname if (len(rq.doc.gen.ops) > 1 or tape.draw(2, "passname")) else None
+            on = rq.schema
             try:
                 if entry == "execute_sync":
-                    res = execute_sync(schema, rq.doc.ast, rq.root, req, rq.variables, opn)
+                    res = execute_sync(on, rq.doc.ast, rq.root, req, rq.variables, opn)
                 elif entry == "execute_sync_check":
-                    res = execute_sync(schema, rq.doc.ast, rq.root, req, rq.variables, opn,
+                    res = execute_sync(on, rq.doc.ast, rq.root, req, rq.variables, opn,
                                        check_sync=True)
                 elif entry == "execute":
-                    res = execute(schema, rq.doc.ast, rq.root, req, rq.variables, opn)
+                    res = execute(on, rq.doc.ast, rq.root, req, rq.variables, opn)
                     if asyncio.iscoroutine(res):
                         res.close()
                         raise RuntimeError("execute() returned a coroutine for synchronous resolvers")
                 else:
-                    res = graphql_sync(schema, rq.doc.text, rq.root, req, rq.variables, opn)
+                    res = graphql_sync(on, rq.doc.text, rq.root, req, rq.variables, opn)
                 formatted = res.formatted
             except Exception as e:  # noqa: BLE001
                 violations.append(Violation(PROP, "escaped_exception",
@@ -196,7 +233,8 @@ def _run_unit(seed=None, unit=None, tier="quick", stats=None):
                 continue
             bump(stats, "counts", "operations")
             bump(stats, "entries", entry)
-            trace.append(["exec", requests.index(rq), entry, "repeat" if repeat else "new"])
+            trace.append(["exec", requests.index(rq), entry, "repeat" if repeat else "new",
+                          schemas.index(on)])
             vs = check_response(PROP, formatted, rq.result, who=entry)
             vs += check_invocations(PROP, req, rq.result, formatted.get("data"), who=entry)
             if rq.first_response is None:
@@ -205,6 +243,8 @@ def _run_unit(seed=None, unit=None, tier="quick", stats=None):
                 vs.append(Violation(PROP, "repeat_differs", {"entry": entry},
                                     {"first": rq.first_response, "again": formatted}))
             for v in vs:
+                if on is not schema:
+                    v.fingerprint["derived_schema"] = True
                 v.fingerprint["op_index"] = "first" if step == 0 else "later"
                 v.fingerprint["seen_before"] = repeat
                 v.detail["step"] = step
@@ -215,8 +255,10 @@ def _run_unit(seed=None, unit=None, tier="quick", stats=None):
                 bump(stats, "probes", "operations_after_address_reuse")
     finally:
         alloc.deactivate()
-    if print_schema(schema) != sdl_before:
-        violations.append(Violation(PROP, "schema_mutated", {"when": "end"}, {}))
+    for sch, sdl in zip(schemas, sdls):
+        if print_schema(sch) != sdl:
+            violations.append(Violation(PROP, "schema_mutated", {"when": "end"},
+                                        {"schema": schemas.index(sch)}))
     if [print_ast(d.ast) for d in docs] != docs_before:
         violations.append(Violation(PROP, "document_mutated", {}, {}))
     bump(stats, "probes", "address_reuse_injected", al.reuses)
